@@ -707,7 +707,7 @@ Qed.
 Lemma ns_del_VS rx rs p : VS rs -> VS (fst (ns_del rx rs p)).
 Proof.
   intros H. unfold ns_del.
-  destruct (last_index_of (fun r => N.eqb (rprefix r) p) (filter (is_kind NAMESPACE_RULE) rs) 0 None); auto.
+  destruct (last_index_of (fun r => is_kind NAMESPACE_RULE r && N.eqb (rprefix r) p) rs 0 None); auto.
   now apply delete_rule_VS.
 Qed.
 
@@ -931,7 +931,7 @@ Proof.
       eapply insert_rule_rej; [exact Ei|]. right. exists e. split; auto. left. congruence.
   - destruct res as [[v|]|e| |]; try discriminate.
     revert E. unfold ns_del.
-    destruct (last_index_of (fun r => N.eqb (rprefix r) p) (filter (is_kind NAMESPACE_RULE) rs) 0 None).
+    destruct (last_index_of (fun r => is_kind NAMESPACE_RULE r && N.eqb (rprefix r) p) rs 0 None).
     + intros E. eapply delete_rule_exc; eauto.
     + intros E; inversion E; auto.
   - destruct res as [[v|]|x| |]; try discriminate.
